@@ -9,14 +9,14 @@ C = {}
 def add(i, cat, tech, text, note, ref): C[i] = (cat, tech, text, note, ref)
 
 T="Trusted: SQLite/bbolt atomicity, the Go runtime, secp256k1/btcec/zpay32 libraries, the harness's LN model and refcrypto."
-add("C01","exploration","runtime monitor: use-count + stickiness oracle over sequential adversarial histories and a controlled-scheduler DFS over all DB/LN-call interleavings of request pairs; porcupine + -race in thorough",
-    "Real mint under (a) seeded sequential histories that re-present used/locked secrets in every way the statement lists, judged against a reference model, and (b) a deterministic scheduler that parks every request before and after each storage/Lightning call (lock waits are detected) and enumerates the interleavings of swap||swap, swap||melt (each LN outcome), melt||melt, checkstate||melt, swap||poll/state-check settling a pending melt on one proof (quick: all schedules with <= 3 preemptions; thorough: all schedules); oracle counts successful swaps plus Lightning payments made per secret (<=1) and probes SPENT stickiness incl. after restart. Thorough adds sampled triples, free-running stress checked for linearizability with porcupine and a race-detector pass.",
+add("C01","exploration","runtime monitor: use-count + stickiness oracle over sequential adversarial histories and a controlled-scheduler DFS over the preemption-bounded DB/LN-call interleavings of request pairs; porcupine + -race in thorough",
+    "Real mint under (a) seeded sequential histories that re-present used/locked secrets in every way the statement lists, judged against a reference model, and (b) a deterministic scheduler that parks every request before and after each storage/Lightning call (lock waits are detected) and enumerates the interleavings of swap||swap, swap||melt (each LN outcome), melt||melt, checkstate||melt, swap||poll/state-check settling a pending melt on one proof (quick: all schedules with <= 3 preemptions; thorough: <= 5 preemptions, at most 10000 per scenario); oracle counts successful swaps plus Lightning payments made per secret (<=1) and probes SPENT stickiness incl. after restart. Thorough adds sampled triples, free-running stress checked for linearizability with porcupine and a race-detector pass.",
     T+" Interleavings are complete for the enumerated pairs only (DESIGN 1.1 argument); triples and stress are samples.", "3/C01")
 add("C02","exploration","runtime monitor: conservation ledger (signed - redeemed - locked + LN out <= LN in, msat) and local balance/fee-limit assertions after every operation of generated histories",
     "Real mint against an LN model that charges the full fee limit it is authorised; seeded honest+adversarial histories over the six fee rates with rotations, internal settlement, MPP, failing/pending payments and sub-sat invoice amounts; the ledger inequality and the local forms (swap, mint, melt, fee limit <= fee reserve) are checked after every operation.",
     T+" Watcher notifications are not delivered in these histories (C03 covers them).", "3/C02")
 add("C03","exploration","runtime monitor: issuance-count oracle per quote over sequential histories, NUT-20 tamper matrix, and controlled-scheduler enumeration of mint||mint, mint||notification, mint||poll interleavings",
-    "Real mint; per quote #successful issuances <= #payments at every point, never before payment, sum <= amount, NUT-20 signature recomputed by the harness; the DB/LN-call interleavings of two mint requests with different outputs, of a mint request with the late watcher notification and with a state poll are enumerated by the scheduler (quick: <= 2 preemptions; thorough: all schedules, plus internal settlement); thorough adds sampled three-way schedules, porcupine stress and -race.",
+    "Real mint; per quote #successful issuances <= #payments at every point, never before payment, sum <= amount, NUT-20 signature recomputed by the harness; the DB/LN-call interleavings of two mint requests with different outputs, of a mint request with the late watcher notification and with a state poll are enumerated by the scheduler (quick: <= 2 preemptions; thorough: <= 5 preemptions, at most 10000 per scenario, plus internal settlement); thorough adds sampled three-way schedules, porcupine stress and -race.",
     T+" Complete for the enumerated pairs only.", "3/C03")
 add("C04","exploration","runtime monitor: accept/reject oracle over generated single-field mutants of really minted proofs (refcrypto decides genuineness)",
     "Real mint (LoadMint + SQLite) with three keysets; valid proofs on every keyset and denomination class are minted, every value mutation of amount/id/C/secret is presented alone, after and before a valid proof through Swap and MeltTokens; mutants must be refused, originals still accepted afterwards. Held on the cases listed in the evidence, not for all inputs.",
